@@ -29,7 +29,7 @@ META = dict(
     property="C15",
     level="exploration",
     technique="generated write schedules over real loopback TCP connections on fresh SelectReactor / PollReactor / EPollReactor / AsyncioSelectorReactor instances with shrunken SO_SNDBUF/SO_RCVBUF, nine close scenarios, order-insensitive event-log oracle plus an idle-state stall probe",
-    level_text="A fixed matrix (4 reactors x 9 close scenarios x 6 traffic shapes) plus Hypothesis schedules per reactor (writes 0..4 MiB in thorough, 0..1 MiB in quick; bursts, writeSequence, delayed writes, receiver pauses). The OS schedules the sockets; only invariants that hold under every schedule are asserted. Sampled; the weakest kind of claim in this suite.",
+    level_text="A fixed matrix (4 reactors x 9 close scenarios x 6 traffic shapes) and a lifecycle matrix (4 reactors x 5 scenarios x push/pull producer x 3 orders of close/unregister, plus read-side pause/resume on both sides) plus Hypothesis schedules per reactor (writes 0..4 MiB in thorough, 0..1 MiB in quick; bursts, writeSequence, delayed writes, receiver pauses). The OS schedules the sockets; only invariants that hold under every schedule are asserted. Sampled; the weakest kind of claim in this suite.",
     level_note="Trusted: the Linux loopback TCP stack, the event-recording protocols. Timing is not controlled: cases are not bit-for-bit reproducible, the oracle is. Hangs are reported as harness errors, so a defect whose only symptom is a stall is not detected as a violation.",
     design_ref="§5 C15",
     rule="case = (reactor, who sends, socket buffer sizes, write schedule, close scenario, receiver pause, half-close interface flags). non-trivial = the sender wrote more than its (shrunken) socket send buffer in one burst, so user-space buffering and partial writes were needed; distinct by the whole case.",
@@ -178,6 +178,41 @@ def _make_protocols(h):
     return Base, Half
 
 
+class _Producer:
+    """The sender's schedule driven through the producer API (push or pull)."""
+
+    def __init__(self, h, streaming):
+        self.h, self.streaming = h, streaming
+        self.paused = False
+        self.stopped = False
+        self.pauses = self.resumes = 0
+
+    def pauseProducing(self):
+        self.paused = True
+        self.pauses += 1
+
+    def resumeProducing(self):
+        h = self.h
+        self.paused = False
+        self.resumes += 1
+        if self.stopped or not h.prod_registered:
+            return
+        if h.unreg_in_resume:
+            # finishes from inside resumeProducing, without writing anything more
+            h.unreg_in_resume = False
+            h.unreg_reentrant += 1
+            h.unregister()
+            return
+        if self.streaming:
+            h.run_steps()
+        else:
+            h.pull_step()
+
+    def stopProducing(self):
+        self.stopped = True
+        self.h.prod_registered = False
+
+
 class _H:
     def __init__(self, ctx, case):
         self.ctx, self.case = ctx, case
@@ -197,7 +232,17 @@ class _H:
         self.aborted = set()      # roles that called abortConnection
         self.closers = set()      # roles that called loseConnection / loseWriteConnection / abortConnection
         self.lose_called = set()  # roles that called loseConnection
+        self.half_called = set()  # roles that called loseWriteConnection
+        self.unreg_after_half = False
         self.echoed = 0
+        self.prod = None
+        self.prod_registered = False
+        self.unreg_in_resume = False
+        self.unreg_reentrant = 0
+        self.closed_while_registered_paused = False
+        self.harness_paused = {"sender": False, "receiver": False}
+        self.pause_cycles = {"sender": 0, "receiver": 0}
+        self.pause_after_half = 0
         self.lose_with_output_pending = False
         self.stall = None         # set by the idle probe
         self.probes = 0
@@ -215,7 +260,15 @@ class _H:
                 p.transport.setTcpNoDelay(True)
             self.steps = list(case["steps"])
             self.burst = 0
-            self.run_steps()
+            kind = case.get("producer")
+            if kind:
+                self.prod = _Producer(self, kind == "push")
+                self.prod_registered = True
+                p.transport.registerProducer(self.prod, kind == "push")   # a pull producer is resumed right here
+                if kind == "push":
+                    self.run_steps()
+            else:
+                self.run_steps()
         else:
             if case["rcvbuf"]:
                 sk.setsockopt(socket.SOL_SOCKET, socket.SO_RCVBUF, case["rcvbuf"])
@@ -229,32 +282,80 @@ class _H:
 
     def run_steps(self):
         p = self.protos["sender"]
-        while self.steps:
+        if self.schedule_done or getattr(self, "in_steps", False):
+            return
+        self.in_steps = True
+        try:
+            while self.steps:
+                if self.logs["sender"].lost:
+                    return
+                if self.prod is not None and self.prod.paused:
+                    return              # a push producer waits for resumeProducing
+                s = self.steps.pop(0)
+                if s[0] == "delay":
+                    self.max_burst = max(self.max_burst, self.burst)
+                    self.burst = 0
+                    self.reactor.callLater(s[1] / 1000.0, self.run_steps)
+                    return
+                self.do_write_step(p, s)
+        finally:
+            self.in_steps = False
+        self.end_of_schedule(p)
+
+    def do_write_step(self, p, s):
+        self.note_alignment(p.transport)
+        if s[0] == "w":
+            n = min(s[1], PLEN - self.written)
+            p.transport.write(self.pat[0][self.written:self.written + n])
+            self.written += n
+            self.burst += n
+            return n
+        chunks, total = [], 0
+        for k in s[1]:
+            k = min(k, PLEN - self.written)
+            chunks.append(self.pat[0][self.written:self.written + k])
+            self.written += k
+            self.burst += k
+            total += k
+        p.transport.writeSequence(chunks)
+        return total
+
+    def pull_step(self):
+        """resumeProducing of a pull producer: write the next non-empty piece, or finish."""
+        p = self.protos["sender"]
+        while self.steps and not self.logs["sender"].lost:
             s = self.steps.pop(0)
-            if self.logs["sender"].lost:
+            if s[0] != "delay" and self.do_write_step(p, s):
                 return
-            if s[0] in ("w", "ws"):
-                self.note_alignment(p.transport)
-            if s[0] == "w":
-                n = min(s[1], PLEN - self.written)
-                p.transport.write(self.pat[0][self.written:self.written + n])
-                self.written += n
-                self.burst += n
-            elif s[0] == "ws":
-                chunks = []
-                for k in s[1]:
-                    k = min(k, PLEN - self.written)
-                    chunks.append(self.pat[0][self.written:self.written + k])
-                    self.written += k
-                    self.burst += k
-                p.transport.writeSequence(chunks)
-            elif s[0] == "delay":
-                self.max_burst = max(self.max_burst, self.burst)
-                self.burst = 0
-                self.reactor.callLater(s[1] / 1000.0, self.run_steps)
-                return
+        if not self.logs["sender"].lost:
+            self.end_of_schedule(p)
+
+    def unregister(self):
+        p = self.protos.get("sender")
+        if self.prod_registered and p is not None and not p.log.lost:
+            self.prod_registered = False
+            if "sender" in self.half_called and "sender" not in self.lose_called:
+                self.unreg_after_half = True
+            p.transport.unregisterProducer()
+
+    def end_of_schedule(self, p):
+        if self.schedule_done:
+            return
         self.max_burst = max(self.max_burst, self.burst)
         self.schedule_done = True
+        fin = self.case.get("fin", "unreg-close")
+        if self.prod is not None and fin == "unreg-close":
+            self.unregister()
+        self.close_by_scenario(p)
+        if self.prod is not None and self.prod_registered and fin != "unreg-close":
+            if self.prod.paused and "sender" in self.lose_called:
+                self.closed_while_registered_paused = True
+            if fin == "close-unreg-resume":
+                self.unreg_in_resume = True       # at the next resumeProducing, re-entrantly
+            else:
+                self.reactor.callLater(self.case.get("unreg_delay", 0) / 1000.0, self.unregister)
+
+    def close_by_scenario(self, p):
         sc = self.case["scenario"]
         if sc == "sender-lose":
             self.lose(p)
@@ -277,12 +378,18 @@ class _H:
 
     def on_data(self, p):
         case = self.case
+        spec = case["rx_pause"] if p.role == "receiver" else case.get("tx_pause")
+        if spec and not self.pause_cycles[p.role] and p.log.got >= spec[0] and p.role not in self.lose_called \
+                and p.role not in self.aborted:
+            # read-side flow control: a slow consumer pauses inside dataReceived and resumes later
+            self.pause_cycles[p.role] += 1
+            self.harness_paused[p.role] = True
+            if p.log.wcl or (p.role == "sender" and self.case["scenario"] in ("sender-half", "duplex-half")
+                             and self.schedule_done):
+                self.pause_after_half += 1
+            p.transport.pauseProducing()
+            self.reactor.callLater(spec[1] / 1000.0, self.resume_reading, p.role)
         if p.role == "receiver":
-            L = p.log
-            if case["rx_pause"] and not getattr(self, "paused_once", False) and L.got >= case["rx_pause"][0]:
-                self.paused_once = True
-                p.transport.pauseProducing()
-                self.reactor.callLater(case["rx_pause"][1] / 1000.0, self.rx_resume)
             if case["scenario"] == "receiver-echo-lose" and not self.closed_by_receiver:
                 # acknowledge every delivery with a few bytes; they are flushed by a later
                 # doWrite, so output is usually pending when the next delivery arrives
@@ -292,8 +399,9 @@ class _H:
                 self.echoed += 1
             self.maybe_receiver_close(p)
 
-    def rx_resume(self):
-        p = self.protos.get("receiver")
+    def resume_reading(self, role):
+        p = self.protos.get(role)
+        self.harness_paused[role] = False
         if p is not None and not p.log.lost:
             p.transport.resumeProducing()
 
@@ -329,6 +437,7 @@ class _H:
     def half(self, p):
         if not p.log.lost:
             self.closers.add(p.role)
+            self.half_called.add(p.role)
             p.transport.loseWriteConnection()
 
     def half_then_lose(self):
@@ -400,13 +509,42 @@ class _H:
             # producers in this harness) stays a registered writer until the close
             # completes.  Neither reader nor writer and still not lost = nothing
             # can ever finish the close.
-            if x is not None and not x.log.lost and x.role in self.lose_called and x.role not in self.aborted:
+            if x is not None and not x.log.lost and x.role not in self.lose_called and x.role not in self.aborted \
+                    and not x.log.rcl and not self.harness_paused[x.role]:
+                # connected, never asked for a full close, its peer's EOF not seen, not paused by the
+                # application (or resumed since): it must be waiting for input
+                try:
+                    reading = x.transport in self.reactor.getReaders()
+                except AttributeError:
+                    reading = True
+                if not reading:
+                    self.stall = dict(kind="not-reading", role=x.role)
+                    self.reactor.stop()
+                    return
+            if x is not None and not x.log.lost and x.role in self.lose_called and x.role not in self.aborted \
+                    and not (x.role == "sender" and self.prod_registered):
                 try:
                     idle = x.transport not in self.reactor.getWriters() and x.transport not in self.reactor.getReaders()
                 except AttributeError:
                     idle = False
                 if idle:
                     self.stall = dict(kind="close-limbo", role=x.role)
+                    self.reactor.stop()
+                    return
+        for x in (S, R):
+            # Same for a requested half-close: until it is performed the transport
+            # stays a registered writer.  TCP state ESTABLISHED / CLOSE_WAIT = this
+            # end has not sent a FIN.
+            if x is not None and not x.log.lost and x.role in self.half_called and x.role not in self.lose_called \
+                    and x.role not in self.aborted and not x.log.wcl and not (x.role == "sender" and self.prod_registered):
+                try:
+                    idle = x.transport not in self.reactor.getWriters()
+                    state = x.transport.getHandle().getsockopt(socket.IPPROTO_TCP, socket.TCP_INFO, 1)[0]
+                except (OSError, AttributeError):
+                    continue
+                if idle and state in (1, 8):
+                    self.stall = dict(kind="half-limbo", role=x.role,
+                                      after_unreg=(x.role == "sender" and self.unreg_after_half))
                     self.reactor.stop()
                     return
         if S is not None and R is not None and not S.log.lost and not R.log.lost:
@@ -505,6 +643,20 @@ class _H:
             fail("readconnectionlost-without-peer-close",
                  f"{self.stall['role']}: readConnectionLost although its peer has not called loseConnection / "
                  "loseWriteConnection / abortConnection and is still connected")
+        if self.stall is not None and self.stall["kind"] == "not-reading":
+            fail("connected-transport-not-reading",
+                 f"{self.stall['role']} is connected, has not asked for a full close, has not seen its peer's EOF and is not paused by the "
+                 "application (any pauseProducing was followed by resumeProducing), yet its transport is not registered for "
+                 "reading: it can never receive the rest of the stream nor the end of the connection")
+        if self.stall is not None and self.stall["kind"] == "half-limbo":
+            if self.stall["after_unreg"]:
+                fail("half-close-pending-at-unregisterproducer-never-performed",
+                     "the sender called loseWriteConnection while its producer was registered; the producer has been "
+                     "unregistered since, the transport is not registered for writing and no FIN was sent (TCP state "
+                     "ESTABLISHED/CLOSE_WAIT): the half-close can never happen, the peer never sees EOF")
+            fail("half-close-requested-but-transport-idle",
+                 f"{self.stall['role']} called loseWriteConnection, no FIN was sent (TCP state ESTABLISHED/CLOSE_WAIT) and its "
+                 "transport is not registered for writing: the half-close can never happen")
         if self.stall is not None and self.stall["kind"] == "close-limbo":
             fail("close-requested-but-transport-idle",
                  f"{self.stall['role']} called loseConnection, has not had connectionLost, and its transport is registered "
@@ -610,6 +762,21 @@ class _H:
         # bookkeeping
         ctx.count(f"reactor={rk}")
         ctx.count("idle probes", self.probes)
+        if self.prod is not None:
+            ctx.count(f"schedule driven by a {'push' if self.prod.streaming else 'pull'} producer")
+            if self.prod.pauses:
+                ctx.count("producer paused by back-pressure")
+            if self.unreg_reentrant:
+                ctx.count("producer unregistered from inside resumeProducing")
+            if self.closed_while_registered_paused:
+                ctx.count("loseConnection while a paused push producer is registered")
+                if self.unreg_reentrant:
+                    ctx.count("... which then unregistered from inside resumeProducing")
+        for role in ("sender", "receiver"):
+            if self.pause_cycles[role]:
+                ctx.count(f"{role} paused and resumed reading")
+        if self.pause_after_half:
+            ctx.count("read-side pause/resume on a transport whose own write side is half-closed")
         if self.queued_behind_aligned:
             ctx.count("write queued behind an unsent remainder of k x SEND_LIMIT (white-box bookkeeping)")
             if sc in ("sender-lose", "sender-half", "duplex-half"):
@@ -653,7 +820,8 @@ def run_case(ctx, case):
 def _case(**kw):
     d = dict(reactor="select", sender_is_client=True, sndbuf=4096, rcvbuf=65536, nodelay=False,
              steps=[], scenario="sender-lose", abort_delay=-1, early=1, rx_pause=None,
-             reply=[10], tx_half_iface=True, rx_half_iface=True, linger=0, echo=3)
+             reply=[10], tx_half_iface=True, rx_half_iface=True, linger=0, echo=3,
+             tx_pause=None, producer=None, fin="unreg-close", unreg_delay=0)
     d.update(kw)
     return d
 
@@ -676,6 +844,20 @@ def _matrix():
         for sc in SCENARIOS:
             for sh in shapes:
                 yield _case(reactor=rk, scenario=sc, **sh)
+
+
+def _matrix2():
+    """Lifecycle matrix: the schedule driven by a push / pull producer with every order of
+    (close, unregister, re-entrant unregister), and read-side flow control on either side."""
+    for rk in REACTORS:
+        for sc in ("sender-lose", "sender-half", "sender-half-lose", "duplex-half", "receiver-lose-after-all"):
+            for prod in ("push", "pull"):
+                for fin in ("unreg-close", "close-unreg-resume", "close-unreg-later"):
+                    yield _case(reactor=rk, scenario=sc, producer=prod, fin=fin, sndbuf=4096,
+                                steps=[["w", 200000], ["delay", 0], ["w", 100000]], reply=[50000])
+        for sc in ("sender-half", "duplex-half", "sender-lose"):
+            yield _case(reactor=rk, scenario=sc, steps=[["w", 100000]], reply=[150000, 10],
+                        tx_pause=[0, 2], rx_pause=[1, 2])
 
 
 def _strategy(rk, max_exp):
@@ -707,11 +889,18 @@ def _strategy(rk, max_exp):
         tx_half_iface=st.booleans(), rx_half_iface=st.booleans(),
         linger=st.sampled_from([0, 0, 2]),
         echo=st.sampled_from([1, 3, 100, 5000]),
+        tx_pause=st.one_of(st.none(), st.tuples(st.integers(0, 20000), st.sampled_from([0, 1, 5])).map(list)),
+        producer=st.sampled_from([None, None, "push", "push", "pull"]),
+        fin=st.sampled_from(["unreg-close", "close-unreg-resume", "close-unreg-later"]),
+        unreg_delay=st.sampled_from([0, 1, 5]),
     )
 
 
 def run(ctx):
     enumerate_run(ctx, _matrix(), run_case)
+    if ctx.has_violation():
+        return
+    enumerate_run(ctx, _matrix2(), run_case)
     if ctx.has_violation():
         return
     n = ctx.pick(60, 1200)
